@@ -298,6 +298,9 @@ func engineC02(c *vctx) error {
 			sb{"minsize-last-nonzero", mk(ms, func(b []byte) { b[ms-1] = 1 }), nil, false},
 			sb{"minsize-first-nonzero", mk(ms, func(b []byte) { b[0] = 1 }), nil, false},
 			sb{"minsize-mid-nonzero", mk(ms, func(b []byte) { b[ms/2] = 0x80 }), nil, false},
+			// the first exactly MinSize bytes are zero, then a non-zero byte: ZeroPrefixLen == MinSize but len > MinSize
+			sb{"zero-prefix+1", mk(ms+1, func(b []byte) { b[ms] = 1 }), nil, false},
+			sb{"zero-prefix+1000", mk(ms+1000, func(b []byte) { copy(b[ms:], rng.bytes(1000)); b[ms] |= 1 }), nil, false},
 			sb{"zero-1", mk(1, nil), nil, false},
 			sb{"zero-2x-minsize", mk(2*ms, nil), nil, false},
 			sb{"random", r1, nil, false},
@@ -333,6 +336,48 @@ func engineC02(c *vctx) error {
 				c.Case("save-blob-"+b.kind, true, 1, fmt.Sprintf("CSaveBlob %s %s %s %s %s %s %s", c02Digest(b.buf), coqZ(int64(len(b.buf))), coqBool(zeros),
 					c02OptID(!given.IsNull(), coqHex(given[:])), coqBool(known && round == 0), c02OptID(ok, coqHex(newID[:])), zeroDigest),
 					fmt.Sprintf("%s len=%d given=%v round=%d -> ok=%v id=%s", b.kind, len(b.buf), !given.IsNull(), round, ok, newID.Str()))
+				if ok && given.IsNull() {
+					// what LoadBlob hands out under the returned ID must be the saved bytes
+					got, gerr := repo.LoadBlob(ctx, restic.BlobHandle{ID: newID, Type: restic.DataBlob}, nil)
+					c.Case("save-load-"+b.kind, true, 1, fmt.Sprintf("CSavedLoad %s %s %s", c02Digest(b.buf), coqHex(newID[:]), c02OptID(gerr == nil, c02Digest(got))),
+						fmt.Sprintf("%s len=%d: SaveBlob -> %s, LoadBlob of it: err=%v len=%d", b.kind, len(b.buf), newID.Str(), gerr != nil, len(got)))
+				}
+			}
+		}
+
+		// zero-prefixed blobs longer than MinSize in a fresh repository (zero chunk not yet known) and in one opened
+		// with --no-extra-verify (nothing double-checks the ID before the blob is stored and indexed)
+		for _, variant := range []string{"fresh", "noverify"} {
+			ev := newVenv(c, variant+"-"+cf.name)
+			if _, se, err := ev.cli("init", "--repository-version", cf.version); err != nil {
+				return fmt.Errorf("init %s: %v %s", variant, err, se)
+			}
+			ev.gopts.NoExtraVerify = variant == "noverify"
+			rv, err := ev.openRepo(ctx)
+			if err != nil {
+				return fmt.Errorf("open %s: %w", variant, err)
+			}
+			if err := rv.LoadIndex(ctx, restic.NewNoopPrinter()); err != nil {
+				return fmt.Errorf("loadindex %s: %w", variant, err)
+			}
+			for _, extra := range []int{1, 1000} {
+				buf := mk(ms+extra, func(b []byte) { copy(b[ms:], rng.bytes(extra)); b[ms] |= 1 })
+				var newID restic.ID
+				var serr error
+				var known bool
+				werr := rv.WithBlobUploader(ctx, func(ctx context.Context, up restic.BlobSaverWithAsync) error {
+					newID, known, _, serr = up.SaveBlob(ctx, restic.DataBlob, buf, restic.ID{}, false)
+					return nil
+				})
+				ok := serr == nil && werr == nil
+				kind := fmt.Sprintf("%s-zero-prefix+%d", variant, extra)
+				c.Case("save-blob-"+kind, true, 1, fmt.Sprintf("CSaveBlob %s %s false None %s %s %s", c02Digest(buf), coqZ(int64(len(buf))), coqBool(known), c02OptID(ok, coqHex(newID[:])), zeroDigest),
+					fmt.Sprintf("%s len=%d -> ok=%v id=%s", kind, len(buf), ok, newID.Str()))
+				if ok {
+					got, gerr := rv.LoadBlob(ctx, restic.BlobHandle{ID: newID, Type: restic.DataBlob}, nil)
+					c.Case("save-load-"+kind, true, 1, fmt.Sprintf("CSavedLoad %s %s %s", c02Digest(buf), coqHex(newID[:]), c02OptID(gerr == nil, c02Digest(got))),
+						fmt.Sprintf("%s: SaveBlob -> %s, LoadBlob of it: err=%v len=%d", kind, newID.Str(), gerr != nil, len(got)))
+				}
 			}
 		}
 
